@@ -36,7 +36,7 @@ UNA_CLASSES = ['una-%s-%s' % (s, b) for s in ('add', 'sub') for b in ('leading',
 ILL_CLASSES = ['ill-paren-insert', 'ill-paren-delete', 'ill-arity-more', 'ill-arity-empty-argument', 'ill-arity-fewer', 'ill-operand-deleted', 'ill-operator-deleted',
                'ill-edit-still-wellformed', 'ill-must-be-rejected']
 REQUIRED_CLASSES = (LEVEL_CLASSES + CHAIN_CLASSES + CMP_CLASSES + FN_CLASSES + UNA_CLASSES + ILL_CLASSES +
-                    ['unary-before-pow', 'nesting>=3', 'blank-variant', 'logical-result', 'numeric-result', 'docs-example'])
+                    ['truth-values-as-numbers', 'unary-before-pow', 'nesting>=3', 'blank-variant', 'logical-result', 'numeric-result', 'docs-example'])
 REQUIRED_MONITORS = ['used_solver_twin_compares', 'reference_compares', 'blank_pairs_compared', 'illformed_rejections_checked',
                      'recogniser_decisions', 'step_guarded_calls']
 ASSUMPTIONS = ['reference evaluator vt.refmodel.solver_ref (left folds, documented step order, numpy functions) is the trusted base',
@@ -150,6 +150,12 @@ def cases(rng, tier, shard, nshards, ctx):
         if n % 2 == 0:
             focus = FOCI[i % len(FOCI)]
             i += 1
+        if n % 9 == 4:
+            # truth values (negations, comparisons) used as NUMBERS: summed, subtracted, negated, as exponents
+            a, b = rng.choice([0, 1, 2, 3, 0.5]), rng.choice([0, 1, 2, 5])
+            T = lambda: rng.choice(['(!%s)' % a, '(!%s)' % b, '(%s < %s)' % (a, b), '(%s >= %s)' % (a, b), '(!(%s > %s))' % (a, b), '(%s == %s)' % (a, a)])
+            form = rng.choice(['%s + %s', '%s - %s', '-%s + %s', '2 ** (%s + %s)', '%s + %s + %s', '(%s + %s) / 2', '%s * 3 + %s', '-%s', '%s + 1 - %s', 'sin(%s - %s)', '%s * %s + %s'])
+            yield dict(t='truth', text=form % tuple(T() for _ in range(form.count('%s'))))
         if ill:
             ast = gen_ast(rng, 'quick', focus if rng.random() < 0.5 else None)
             yield dict(t='ill', ast=ast, edit=gen_edit(rng, ast), bseed=rng.choice([None, rng.randrange(1 << 30)]))
@@ -284,6 +290,11 @@ def _run_case(case, ctx):
         return run_ill(case, ctx)
     if case['t'] == 'doc':
         return run_wf(R.parse(case['text']), None, ctx, ['docs-example'], case['text'])
+    if case['t'] == 'truth':
+        ast = R.parse(case['text'])
+        if ast is None:
+            return outcome(skip='text outside the grammar of the model parser')
+        return run_wf(ast, None, ctx, ['truth-values-as-numbers'], case['text'])
     return run_wf(case['ast'], case.get('bseed'), ctx, [], None)
 
 
